@@ -56,7 +56,7 @@ C08NoRelease(nd)   ==
 (* ---------------------------------------------------------------- conformance *)
 Walk(nd) == nd.args.mode = "w"
 Predicted == {"Lend", "Deposit", "Withdraw", "CloseLend", "Borrow", "BorrowAlt", "DepositBorrow", "Draw", "Repay", "CloseBorrow",
-              "RepayWithdraw", "FundReserve", "Price", "Accrue"}
+              "RepayWithdraw", "FundReserve", "Price", "Accrue", "Liquidate"}
 (* lend / borrow position the handler touches (and accrues) *)
 TouchedLend(nd) ==
   LET s == Pre(nd) a == nd.args IN
@@ -120,6 +120,9 @@ Act(nd, env) ==
     [] nd.a = "FundReserve" -> FundReserve(cfg, s, a.u, a.asset, a.da, a.amt)
     [] nd.a = "Price" -> Done(SetPrice(s, a.asset, a.p * cfg.pu))
     [] nd.a = "Accrue" -> AccrueEnv(s, a.b, a.d)
+    [] nd.a = "Liquidate" ->   \* V2 internal-keeper request: either the position is handed over (interest as observed) or nothing happens
+         IF HasId(s.borrows, a.b) /\ ~GetId(s.borrows, a.b).ho /\ HasId(Post(nd).borrows, a.b) /\ GetId(Post(nd).borrows, a.b).ho /\ HasId(s.lends, GetId(s.borrows, a.b).lend)
+         THEN Done(HandOver(cfg, s, a.b, GetId(Post(nd).borrows, a.b).iT)) ELSE Done(s)
 
 Conf(nd) ==
   Predictable(nd) =>
@@ -133,7 +136,7 @@ ConfNames == {"Conf_" \o x : x \in Predicted}
 Formulas == <<"C08_BooksRoot", "C08_BooksLend", "C08_BooksLendHandOver", "C08_BooksLendHandOverDrop", "C08_BooksBorrow", "C08_Ltv", "C08_LtvMismatched", "C08_LtvOpenBridged", "C08_LtvDrawBridged", "C08_PoolHeld",
               "C08_NoRelease", "Conf_Model", "Conf_Lend", "Conf_Deposit", "Conf_Withdraw", "Conf_CloseLend", "Conf_Borrow", "Conf_BorrowAlt",
               "Conf_DepositBorrow", "Conf_Draw", "Conf_Repay", "Conf_CloseBorrow", "Conf_RepayWithdraw", "Conf_FundReserve", "Conf_Price",
-              "Conf_Accrue">>
+              "Conf_Accrue", "Conf_Liquidate">>
 Holds(f, i) ==
   LET nd == Nd(i) IN
   CASE f = "C08_BooksRoot" -> C08BooksRoot(nd)
